@@ -116,7 +116,7 @@ def naive_chi2(fixed, mobile, restraints):
                 second = dd
         total += best
         used_mobile.add(bestj)
-        if second is not None and abs(math.sqrt(second) - math.sqrt(best)) <= 1e-9:
+        if second is not None and abs(math.sqrt(second) - math.sqrt(best)) <= 1e-9 * max(1e-30, min(1.0, math.sqrt(second))):
             ambiguous = True
     k = len(mobile) - len(used_mobile)
     return total * (1.1 ** k), k, ambiguous
@@ -147,7 +147,7 @@ def fast_chi2(fixed, mobile, restraints):
         used[idx] = True
         if nm > 1:
             part = np.partition(d2, 1, axis=1)
-            if np.any(np.abs(np.sqrt(part[:, 1]) - np.sqrt(part[:, 0])) <= 1e-9):
+            if np.any(np.abs(np.sqrt(part[:, 1]) - np.sqrt(part[:, 0])) <= 1e-9 * np.maximum(1e-30, np.minimum(1.0, np.sqrt(part[:, 1])))):
                 ambiguous = True
     k = int(nm - np.count_nonzero(used))
     return total * (1.1 ** k), k, ambiguous
